@@ -5,6 +5,7 @@ SPEC = {
     "tests": [
         {"name": "TestOutcome", "quick": 960, "thorough": 64000, "shards_quick": 8, "shards_thorough": 16, "timeout": 3000,
          "race_thorough": True, "replay_repeat": 50},
+        {"name": "TestKnownWitness", "quick": 1, "thorough": 1, "shards": 1, "timeout": 300},
     ],
     "rule": ("rapid-generated runs of the real engine with 1-3 pools of recording doubles; per run at most one pool gets a fault plan: "
              "provider (before first ammo / after k items / after the engine cancelled it at the very end), aggregator (at start / after "
@@ -28,6 +29,28 @@ SPEC = {
              "closed exactly once' is judged at the instant Engine.Run returns nil and at the instant Engine.Wait returns (and again after "
              "everything stopped). A nil result is accepted only if "
              "every pool used up its ammo or its schedule, cancel or not; the cancellation error must come within 1 s of the cancel. "
+             "REAL ammo provider: one healthy pool in ten and two faulty pools in thirteen read their ammo with pandora's real http "
+             "provider (uri - also as inline `uris` -, raw, jsonline files on the in-memory fs; `preload: true` in two of three; passes "
+             "1, 2 or unlimited; in half of them a request middleware whose initialisation takes 0.5-20 ms). The faulty ones read a file "
+             "with one malformed entry (unclosed header / unparsable URL, non-numeric or overlong size line, broken JSON / wrong field "
+             "type) behind 0, 1, 3, 50, 1000 or 10000 good entries, or a file without any entry (empty, blank lines, header lines only, "
+             "an empty JSON array): with preload the provider fails BEFORE its first ammo after a loading time that grows with the file, "
+             "while the pool's instances - started at the same time - already wait in Acquire (counted: Acquire calls in progress at "
+             "the instant the provider's Run returned its error); without preload it fails mid-run, after the good entries before the bad "
+             "one were handed out. The fault counts as reached when the provider's Run returned an error that is not its context's "
+             "cancellation; it is carried when the run's error shows that error's text; everything else (all instances stop, guns closed, "
+             "Wait returns, nil only when ammo or schedule were used up) is judged as for the doubles. "
+             "CROWDED pools: one case in thirty has a pool of 100, 150, 200, 300, 400 or 600 instances (startup `once N`) with a minute "
+             "of work (2000 shots a second in total, shared or per instance), so that all of them are there when the caller's cancel "
+             "(1-300 ms into the run) or the failure of a pool (its own fault plan, or a sibling's) ends the run, and all of them end in "
+             "one burst: parked in the schedule wait or - in half of them, after a first instant shot - in a request that takes 30 s "
+             "unless the gun's context ends it (fake.GunPlan.ShotCtx). LOGGER: one case in twelve and half of the crowded ones give the "
+             "engine a debug (or info) level logger instead of the nop one, whose output costs the logging goroutine 0, 20, 100 or 200 us "
+             "per entry (the pool's await loop logs every awaited result at debug level). "
+             "TestKnownWitness: the fixed witness of finding engine-own-cancel-wrapped-by-provider-fails-run (repaired; a profile without "
+             "a single shot next to a real provider that is still preloading / initialising a middleware: the engine's own cancel came "
+             "back wrapped with %w and was reported as 'provider failed'), judged by the same oracle as a plain regression case; the "
+             "generator produces that shape as well (class real_provider_pool_without_a_shot). "
              "Non-trivial = a fault was actually reached or the cancel arrived while Run was in progress; distinct = hash of the case."),
     "floors": {"TestOutcome/fault_provider": 0.05, "TestOutcome/fault_aggregator": 0.036, "TestOutcome/fault_sched": 0.02,
                "TestOutcome/fault_factory": 0.015, "TestOutcome/fault_bind": 0.02, "TestOutcome/fault_warmup": 0.013,
